@@ -95,16 +95,14 @@ def statusInterp (s : State) (e : Event) (target route : RExpr) : Option (Nat ×
   | _ => Option.none
 
 /-- the first segment of the route code, or `None` -/
-def refPrefix : RExpr := .ite (.notNone .kwRoute) (.firstSeg .kwRoute) .kwRoute
+def refPrefix : RExpr := .ite (.notNone .kwRoute) (.firstSeg .kwRoute) .none
 
 /-- the terms the model `route` was written from -/
 def refStatusTarget : RExpr :=
   .ite (.inPrefixes refPrefix) (.pfxSink refPrefix) (.ite (.inIds .kwTestId) (.idSink .kwTestId) .fallback)
 def refStatusRoute : RExpr :=
-  .ite (.inPrefixes refPrefix)
-    (.ite (.and (.notNone .kwRoute) (.truthy (.pfxConsume refPrefix)))
-      (.ite (.truthy (.dropSeg .kwRoute refPrefix)) (.dropSeg .kwRoute refPrefix) .none)
-      .kwRoute)
+  .ite (.and (.inPrefixes refPrefix) (.and (.notNone .kwRoute) (.truthy (.pfxConsume refPrefix))))
+    (.ite (.truthy (.dropSeg .kwRoute refPrefix)) (.dropSeg .kwRoute refPrefix) .none)
     .kwRoute
 
 /-! ### `startTestRun` / `stopTestRun` -/
